@@ -26,7 +26,7 @@ CONSTANTS
   FixOOS,        \* TRUE: running out of energy en route runs the old activity's exit (request unassigned, ...)
   FixCB,         \* TRUE: ChargingBase.enter demands co-location with the base
   FixFull,       \* TRUE: charge() on a full vehicle is a no-op instead of an error
-  FixQueuePlug   \* TRUE: queueing / dispatching for a plug type the station lacks is rejected
+  FixQueuePlug   \* TRUE: queueing / dispatching for a plug type the station lacks (or the vehicle cannot use) is rejected
 
 None == ""
 
@@ -162,6 +162,7 @@ EnterOp(S, v, nx) ==
          ELSE IF ~RouteFromTo(nx, r, S.st[t].pos, S.st[t].lnk) THEN Rej(S)
          ELSE IF ~Access(S.st[t].fleets, r.fleets) THEN Err(S)
          ELSE IF FixQueuePlug /\ ~Installed(S, t, p) THEN Err(S)
+         ELSE IF FixQueuePlug /\ S.st[t].pl[p].kind # r.kind THEN Err(S)    \* a plug the vehicle could never use
          ELSE Ok(SetAct(S, v, nx))
     [] a = "ChargingStation" -> EnterChargingStation(S, v, t, p)
     [] a = "ChargeQueueing" ->
